@@ -6,9 +6,9 @@ import RichModel.Drv.Proto
   cfg    = `kind,W,H,record,transient,overflow,stopTailUnlocked`   kind 0 none / 1 live / 2 progress ; overflow 0 crop / 1 ellipsis / 2 visible
   init   = line list `n:l1,l2,…` : live = lines of the initial renderable, progress = task descriptions
   progs  = thread programs joined by `/`, operations joined by `|` :
-           `P<lines>`  `K<lines>#<lines>…`  `N<lines>#<lines>#<lines>`  `U<refresh>;<lines>`  `R`  `S`  `X`  `V<id>;<n>`
+           `P<lines>`  `K<lines>#<lines>…`  `N<lines>#<lines>#<lines>`  `U<refresh>;<lines>`  `R`  `S`  `X`  `V<id>;<n>`  `E<clear><mode>` (mode t / s / h)
   events = `tid:code` joined by `,` — the shared accesses in the order they happened on real rich; codes
-           aL rL aC rC aR rR (outermost lock operations)  hr h+ h-  ce  ps rs rr ws sr  w
+           aL rL aC rC aR rR (outermost lock operations)  hr h+ h-  ce cr cd  ps rs rr ws sr  w
   answer = `ok#<observable of every event, joined by ;>#<captures>#<export_text>#<shape>#<hooks>#<started>`
            or `reject@<index>:<what the model's thread does next>` when the trace is not a trace of the model.
 Between two events of a thread the model performs that thread's thread-local (silent) actions.
@@ -61,6 +61,7 @@ def decOp1 (s : String) : Option Op :=
   | ['S'] => some .start
   | ['X'] => some .stop
   | 'P' :: r => some (.print (decStrList (String.ofList r)))
+  | ['E', c, _] => some (.export (c == '1'))
   | 'N' :: r =>
     match ((String.ofList r).splitOn "#").map decStrList with
     | [a, b, c] => some (.nested a b c)
@@ -105,6 +106,8 @@ def visCode (l : Local) (a : Act) : Option String :=
   | .write => if l.buffer.any nonEmpty then some "w" else none
   | .setRenderable _ => some "sr"
   | .tableRender => some "sr"
+  | .exportRead => some "cr"
+  | .exportEnd c => if c then some "cd" else none
   | .pushHook => some "h+"
   | .popHook => some "h-"
   | _ => none
@@ -186,13 +189,28 @@ def initShared (cfg : Cfg) (ov : Overflow) (init : List Line) : Shared :=
     { overflow := ov, overflow0 := ov, tasks := tasks, renderable := tasksTable cw1 tasks }
   | _ => { overflow := ov, overflow0 := ov, renderable := init }
 
+def isExport : Op → Bool
+  | .export _ => true
+  | _ => false
+
 def inDomain (cfg : Cfg) (ov : Overflow) (progs : List (List Op)) : Bool :=
   1 ≤ cfg.height && (ov != .ellipsis || 3 ≤ cfg.width) && progs.all (·.all (Op.applies cfg.kind))
+    && (cfg.record || progs.all (·.all (fun op => !isExport op)))   -- `assert self.record`
+
+/-- The export modes of a thread's program, in order: `t` export_text, `s` export_text(styles=True), `h` export_html. -/
+def decModes (s : String) : List (List Char) :=
+  (s.splitOn "/").map (fun p => (p.splitOn "|").filterMap (fun o => match o.toList with | ['E', _, m] => some m | _ => none))
+
+/-- What an export call returned, in the form the harness derives from the real string: the plain text of the
+non-control pieces (`t`, `h`) or of every piece (`s`). -/
+def encResult (cfg : Cfg) (mode : Char) (r : List Item) : String :=
+  if mode == 's' then encOps (itemsOps r) else encOps (exportOps cfg r)
+
 
 def handlers : List (String × (List String → String)) := [
   ("conc_run", fun a => match a with
-    | [cfg, init, progs, events] =>
-      match decCfg cfg, decProgs progs, decEvents events with
+    | [cfg, init, progsStr, events] =>
+      match decCfg cfg, decProgs progsStr, decEvents events with
       | some (cfg, ov), some progs, some events =>
         if !inDomain cfg ov progs then "unmodelled" else
         let s0 := initState (initShared cfg ov (decStrList init)) progs
@@ -204,10 +222,13 @@ def handlers : List (String × (List String → String)) := [
           | .ok s =>
             let caps := "/".intercalate ((List.range progs.length).map (fun t =>
               "!".intercalate ((s.th t).captured.map (fun c => encOps (itemsOps c)))))
+            let modes := decModes progsStr
+            let exps := "/".intercalate ((List.range progs.length).map (fun t =>
+              "!".intercalate (((s.th t).results.zip (modes.getD t [])).map (fun (r, m) => encResult cfg m r))))
             let faults := (List.range progs.length).any (fun t => (s.th t).fault)
             (if faults then "fault" else "ok") ++ "#" ++ ";".intercalate obs ++ "#" ++ caps ++ "#" ++
               (if cfg.record then encOps (exportOps cfg s.sh.record) else "-") ++ "#" ++ encShape s.sh.shape ++ "#" ++
-              toString s.sh.hooks ++ "#" ++ (if cfg.kind == .none then "-" else encBool s.sh.started)
+              toString s.sh.hooks ++ "#" ++ (if cfg.kind == .none then "-" else encBool s.sh.started) ++ "#" ++ exps
       | _, _, _ => "unmodelled"
     | _ => "bad-args")
 ]
